@@ -53,6 +53,7 @@ type Endpoint struct {
 	accepted      chan struct{}
 	done          chan struct{}
 	wg            sync.WaitGroup
+	downOnce      sync.Once
 	total         int64
 }
 
@@ -213,6 +214,10 @@ func (e *Endpoint) All() []byte {
 // Down stops listening and closes every connection (the endpoint goes away;
 // new connection attempts are refused).  With rst the connections are reset.
 func (e *Endpoint) Down(rst bool) {
+	e.downOnce.Do(func() { e.down(rst) })
+}
+
+func (e *Endpoint) down(rst bool) {
 	e.ln.Close()
 	close(e.done)
 	e.mu.Lock()
